@@ -241,6 +241,12 @@ def run(c, prog, ctx):
     # Transaction encoder itself: version, flag, inputs, outputs, locktime (+ witnesses)
     Wt = c01.writer_list(encs["transaction::Transaction"])
     tys = [x["ty"] for x in Wt]
+    # the encoder writes the witness part under exactly the predicate the formula's closures capture (has_witness(self)):
+    # every non-loop condition of the encoder's conditional items is that predicate
+    HWP = "transaction::Transaction::has_witness(arg1)"
+    wconds = sorted({cd for x in Wt for cd in x["conds"] if not cd[0].startswith("discr(next(")})
+    c.inst("R4.encoder-condition", "Transaction", wconds == [(HWP, "false"), (HWP, "true")],
+           "the Transaction encoder conditions its flag and witness part on %s; the size formula on has_witness() alone" % wconds, encs["transaction::Transaction"].where(), encs["transaction::Transaction"].path)
     c.inst("R4.transaction-shape", "Transaction encoder = [u32, flag u8, inputs, outputs, lock_time, input witnesses, output witnesses]",
            tys == ["u32", "u8", "u8", "std::vec::Vec<transaction::TxIn>", "std::vec::Vec<transaction::TxOut>", "locktime::LockTime", "transaction::TxInWitness", "transaction::TxOutWitness"],
            "wire types %s" % tys, encs["transaction::Transaction"].where(), encs["transaction::Transaction"].path)
